@@ -95,13 +95,21 @@ func c03World(t *testing.T, r *simcore.Run) any {
 		}
 	}
 	srvTsFaults := faulty && tp.Bool(1, 3, "srvts")
-	if srvTsFaults {
+	// the client's own kernel transmit timestamp goes missing now and then: it falls back to a
+	// clock reading taken after the send, which is no kernel timestamp - the bound is not
+	// demanded of such an exchange, but whose reply is accepted for whose request still is
+	cliTxFaults := faulty && tp.Bool(1, 4, "clitx")
+	if srvTsFaults || cliTxFaults {
 		base := *plan
-		srvPlan := base
+		srvPlan, cliPlan := base, base
 		srvPlan.TxStampMissing, srvPlan.TxStampLate, srvPlan.RxStampMissing, srvPlan.RxStampNS = 80, 80, 60, 60
+		cliPlan.TxStampMissing = 200
 		w.net.PlanFor = func(d *simnet.Datagram, at *simnet.UDPConn) *simnet.FaultPlan {
-			if at != nil && at.Host() == w.srv {
+			if at != nil && at.Host() == w.srv && srvTsFaults {
 				return &srvPlan
+			}
+			if at != nil && at.Host() == w.cli && cliTxFaults {
+				return &cliPlan
 			}
 			return nil
 		}
@@ -314,6 +322,10 @@ func c03World(t *testing.T, r *simcore.Run) any {
 			e.q.ID, T0.Sub(r.Start()), reqArr.Sub(r.Start()), e.p.ID, e.p.SentAt.Sub(r.Start()), T3.Sub(r.Start()),
 			map[bool]string{false: "basic", true: "interleaved"}[ilResp], T1x.Sub(r.Start()), T2x.Sub(r.Start()))
 		// the four timestamps belong to exchange e
+		if e.q.TxStampFault != "" {
+			r.Probe("client-kernel-tx-stamp-missing")
+			return
+		}
 		if d := absDur(ts[0].Sub(w.cli.Clock.At(T0))); d > eps {
 			r.Fail("C03", "membership/t0", "t0 differs from the transmit time of the exchange's request by %v; %s", d, desc)
 			return
